@@ -12,17 +12,23 @@ from . import diffcommon
 LEXEMES = [";", "{", "}", "(", ")", "[", "]", "=", "==", "+", "-", "*", "/", "%", "<", ">", "&", "|", "!", "?", ":", ",", ".",
            "->", "#", "if", "else", "while", "return", "int", "//", "/*", "'", '"', "a", "0",
            # an encoding prefix directly followed by the *other* quote, number prefixes: spellings that start a literal
-           "L'", "l'", "u'", "U'", "u8'", 'L"', 'u8"', "0x", "0b", "1e", ".5", "<%", "%:"]
+           "L'", "l'", "u'", "U'", "u8'", 'L"', 'u8"', "0x", "0b", "1e", ".5", "<%", "%:",
+           # question marks: alone they are text; two of them start a trigraph only with one of nine third characters
+           "??", "???", "??a", "a??", "?"]
+TRIGRAPHS = ("??=", "??(", "??/", "??)", "??'", "??<", "??!", "??>", "??-")
 
 
-def pool(width, forbidden, cap):
+def pool(width, forbidden, cap, after="'\"*", keep_singles=False):
     """Replacement texts of exactly `width` characters built from <= 3 code-like lexemes padded with x."""
     lex = [l for l in LEXEMES if not any(f in l for f in forbidden)]
     out = []
     seen = set()
 
     def add(s):
-        if len(s) == width and s not in seen and not any(f in s for f in forbidden) and "??" not in s:
+        # a real trigraph is one displayed character (and '??/' is a backslash): excluded, also when the character
+        # after the site (a quote, a star, the line end) would complete it; any other '??' is plain text
+        if len(s) == width and s not in seen and not any(f in s for f in forbidden) \
+                and not any(t in s + c for t in TRIGRAPHS for c in (after or " ")):
             seen.add(s)
             out.append(s)
 
@@ -35,6 +41,7 @@ def pool(width, forbidden, cap):
             add("x" * (width - len(a)) + a)
             mid = (width - len(a)) // 2
             add("x" * mid + a + "x" * (width - len(a) - mid))
+    nsingle = len(out) if keep_singles else 0
     for a, b in itertools.product(lex, repeat=2):
         if len(a) + len(b) <= width:
             pad = width - len(a) - len(b)
@@ -46,9 +53,10 @@ def pool(width, forbidden, cap):
         for a, b, c in itertools.product(lex, repeat=3):
             if len(a) + len(b) + len(c) <= width:
                 add(a + b + c + "x" * (width - len(a) - len(b) - len(c)))
-    if cap and len(out) > cap:
-        step = len(out) / cap
-        out = [out[int(i * step)] for i in range(cap)]
+    if cap and len(out) - nsingle > cap:
+        rest = out[nsingle:]
+        step = len(rest) / cap
+        out = out[:nsingle] + [rest[int(i * step)] for i in range(cap)]
     return out
 
 
@@ -97,7 +105,7 @@ def file_task(task):
             continue
         per_kind[kind] = per_kind.get(kind, 0) + 1
         copies = [o for o in dict.fromkeys(others) if len(o) == len(inner) and o != inner and not any(f in o for f in forb)]
-        for rep in pool(len(inner), forb, cap) + copies:
+        for rep in pool(len(inner), forb, abs(cap), after=(sfx[:1] or " "), keep_singles=cap < 0) + copies:
             if rep == inner or (kind == "blockcomment-interior" and rep.startswith("/")):
                 continue            # '**' + '/' would close the comment: the delimiter must not be formed
             # a block comment whose text starts with '/' right after '/*' is still inside the comment
@@ -163,9 +171,12 @@ def sample_task(task):
     out = []
     n = 0
     per_kind = {}
+    full_done = set()
     for (a, b, kind, pfx, inner, sfx, forb) in sample_sites(fname, text):
         per_kind[kind] = per_kind.get(kind, 0) + 1
-        for rep in pool(len(inner), forb, cap):
+        full = kind not in full_done and cap < 0
+        full_done.add(kind)
+        for rep in pool(len(inner), forb, abs(cap), after=(sfx[:1] or " "), keep_singles=full):
             if rep == inner or (kind == "blockcomment" and rep.endswith("*")) or (kind == "blockcomment" and rep.startswith("/") and False):
                 continue
             v = text[:a] + pfx + rep + sfx + text[b:]
@@ -191,9 +202,14 @@ def run(tier, seed):
     files = [f for f in files if sites(f["lines"])]
     cap = 60 if tier == "quick" else 600
     tasks = []
+    full_kinds = {}
     for i, f in enumerate(files):
-        for si in range(len(sites(f["lines"]))):
-            tasks.append((f["fname"], f["pre"], f["lines"], cap, False, si))
+        for si, site in enumerate(sites(f["lines"])):
+            # the first two sites of every kind get every single-lexeme replacement (start / end / middle), the others
+            # an even slice of the pool
+            k = full_kinds.get(site[2], 0)
+            full_kinds[site[2]] = k + 1
+            tasks.append((f["fname"], f["pre"], f["lines"], -cap if k < 2 else cap, False, si))
         if tier == "thorough" and i < 40:
             tasks.append((f["fname"], f["pre"], f["lines"], 0, True, -1))
     res = explore.pmap(file_task, tasks, chunksize=1)
@@ -207,7 +223,7 @@ def run(tier, seed):
             failures.append(Failure("C17", f"{kind}:replacement-contains:{cls}", f"{t[0]}: {detail[:300]}",
                                     {"fname": t[0], "text": text, "base": base_text}))
     from .. import corpus
-    smp = [(fn, tx, 10 if tier == "quick" else 80) for fn, tx in corpus.samples()]
+    smp = [(fn, tx, (-10 if i % 16 == seed % 16 else 10) if tier == "quick" else -80) for i, (fn, tx) in enumerate(corpus.samples())]
     sres = explore.pmap(sample_task, smp, chunksize=1)
     for (fn, tx, _), (n, out, pk, _b) in zip(smp, sres):
         st.runs += n
@@ -234,7 +250,7 @@ def run(tier, seed):
              "diagnostics; distinct = files",
         exhaustive=True, bounds={"per_site_cap": cap, "deviations": 1 if tier == "quick" else 2},
         alphabet={"lexemes": len(LEXEMES)},
-        assumptions=BASE_ASSUMPTIONS + ["replacements never contain the site's delimiter, a backslash, a newline or '??'"],
+        assumptions=BASE_ASSUMPTIONS + ["replacements never contain the site's delimiter, a backslash, a trigraph (one displayed character; ??/ is a backslash) or a newline"],
         distinct=len(files),
     )
 
